@@ -177,7 +177,7 @@ pub fn property() -> Property {
         parts: vec![Box::new(GenPart {
             name: "streams",
             rule: "see property rule",
-            cases: (150_000, 8_000_000),
+            cases: (1_500_000, 8_000_000),
             strategy,
             check,
             required_classes: &["completed", "substituted", "gse_len>=4000", "buffer==packet", "storage>pdu", "buffer>4097", "explicit-reuse", "explicit-reuse-without-label", "encap-err"],
